@@ -1,0 +1,27 @@
+//go:build verif
+
+// Contracts for "parameters bind only when the batch matches the declared schema" (property C07,
+// reduced core). Comment-only.
+//
+// schemaEq(a, b) IS the verdict of (*arrow.Schema).Equal (field order, names, types,
+// nullability). Nothing is bound into the parameter struct — from the batch or from a default —
+// unless that verdict was true for the batch's schema and the declared one; the pipe unary
+// dispatcher calls the handler only after binding succeeded.
+
+package vgirpc
+
+// a memoized struct description is built once and never modified (checked package-wide)
+//@ immutable structDesc.Schema
+//@ immutable structDesc.Fields
+
+//@ func deserializeParams
+//@   property C07
+//@   at call (*arrow.Schema).Equal assert [declared] arg0 == schemaOf(batch) && arg1 == desc.Schema
+//@   at call setFieldFromArrow assert [gate] schemaEq(schemaOf(batch), desc.Schema)
+//@   at call setFieldFromString assert [gatedefault] schemaEq(schemaOf(batch), desc.Schema)
+//@   at call setFieldFromArrow assert [value] arg2 == col && arg3 == 0 && arg1 == fd.Type
+//@   at call setFieldFromString#2 assert [nulldefault] info.Default != nil && arg2 == *info.Default && arg1 == fd.Type
+
+//@ func (*Server).serveUnary
+//@   property C07
+//@   at call (*Server).serveUnary$1 assert [boundfirst] err == nil
